@@ -17,7 +17,13 @@ var oCorpus = []string{
 	"true // {const: true}",
 	"null",
 	"{\"o\": {\"p\": [1, \"s\", null]}} // - described",
+	"\"a\" // {or: [{type: \"string\", const: true}, {type: \"datetime\"}, \"integer\"]}",
+	"\"a\" // {or: [{type: \"enum\", enum: [\"a\", 2]}, {type: \"integer\"}]}", // oEnumAlternative
 }
+
+// oEnumAlternative is the index of the corpus schema with an enum-typed `or`
+// alternative (known finding C02-openapi-enum-alternative-panics).
+const oEnumAlternative = 12
 
 // VerifC02_OpenAPIStructs: for every accepted schema of the corpus with its
 // digits/letters varied and K arbitrary trailing bytes, building the OpenAPI
@@ -27,6 +33,9 @@ func VerifC02_OpenAPIStructs() {
 	zzverif.Expect("converted")
 	zzverif.BoundIsViolation()
 	d := zzverif.IntRange("doc", 0, len(oCorpus)-1)
+	// the conversion has no case for an alternative of type "enum": it panics
+	// with the internal failure code, and NewSchemaObject does not recover
+	zzverif.Known("C02-openapi-enum-alternative-panics", d == oEnumAlternative)
 	text := []byte(oCorpus[d])
 	// vary every digit of the text by one symbolic replacement digit class
 	pos := zzverif.IntRange("vary", 0, len(text)-1)
